@@ -131,7 +131,7 @@ def check_decoys(acc, h, cfg, layer, info):
 
 
 def check_config(acc, h, cfg, layer, digest=None, with_decoys=False):
-    info = B.analyse(cfg)
+    info = B.analyse_all(cfg)
     if info['verdict'] == 'reject':
         return
     if with_decoys:
